@@ -121,7 +121,10 @@ def main():
             def apply(wt, patch=patch):
                 r = sh(['git', '-C', wt, 'apply', patch])
                 return r.stdout if r.returncode else None
-            todo.append((name, meta.get('run_checks') or [meta['property']], apply))
+            checks = meta.get('run_checks') or [meta['property']]
+            if '--own-only' in sys.argv:
+                checks = [meta['property']]
+            todo.append((name, checks, apply))
     else:
         for (name, props, f, old, new) in M:
             if args and not any(a in name for a in args):
